@@ -348,6 +348,8 @@ def main(tier, seed):
         # temperature, given the batches before it (ESS mode incl. several iterations at one temperature; binding dynamic mode)
         import c01
         c01.stored_evidence_probe(run, tier)
+        import c05
+        c05.second_run_probe(run, tier, rng)    # the weights/evidence of every step of a second run() on one Sampler
     except Exception:
         import traceback
         run.broken.append(("harness-exception", traceback.format_exc()[-1500:]))
